@@ -74,17 +74,17 @@ PROPS = {
     },
     "C08": {
         "rule": "1..4 rounds of 1..6 concurrent connections against Http::Endpoint (75 %) or a raw Tcp::Listener (25 %), client behaviour drawn per "
-                "connection from 26 kinds (orderly, close mid-request, half-close, RST idle / with unread data / with pending writes, silence, partial "
+                "connection from 27 kinds (orderly, close mid-request, half-close, RST idle / with unread data / with pending writes, silence, partial "
                 "request then silence, giving up near the idle time-out, stalled reader across idle scans - also one that sends again the moment it wakes up -, response time-outs armed/disarmed, file "
                 "responses completed or aborted, replies from another thread aborted, never answered, chunked streams, reset right behind a request); a tenth of the runs each concentrate on clients that leave at about the moment "
                 "an application thread answers them, and on streamed responses (flush) next to clients that reset; thread stalls and slow thread starts injected; " + NONTRIVIAL,
         "probes_expected": ["behaviour-" + b for b in ["orderly", "close-mid-request", "half-close", "rst-idle", "rst-unread", "rst-pending", "silence",
                             "partial-then-silence", "tmo", "tmoreply", "file", "file-abort", "async-abort", "never-close", "stream",
                             "silence-close-near-timeout", "silence-abort-near-timeout", "stall-beyond-timeout",
-                            "abandon-at-once-close", "abandon-at-once-abort", "abandon-at-once-half-close", "tmo-then-close", "tmo-then-abort", "stall-resume-trickle", "request-then-abort-quickly", "async-close"]],
+                            "abandon-at-once-close", "abandon-at-once-abort", "abandon-at-once-half-close", "tmo-then-close", "tmo-then-abort", "stall-resume-trickle", "request-then-abort-quickly", "async-close", "tmo-moved"]],
         "assumptions": ["the descriptor census is taken after all clients are gone and the longest time-out plus 1.5 s have elapsed"],
-        "quick": {"batches": [("c08_lifecycle", "plain", 15000), ("c08_moved_timeout", "plain", 16), ("c08_lifecycle", "asan", 1500), ("c08_lifecycle", "tsan", 500), ("c08_lifecycle", "tsanat", 4000)], "chunk": 100},
-        "thorough": {"batches": [("c08_lifecycle", "plain", 80000), ("c08_moved_timeout", "plain", 64), ("c08_lifecycle", "asan", 8000), ("c08_lifecycle", "tsan", 8000), ("c08_lifecycle", "tsanat", 30000)], "chunk": 200},
+        "quick": {"batches": [("c08_lifecycle", "plain", 15000), ("c08_moved_timeout", "plain", 64), ("c08_moved_timeout", "asan", 64), ("c08_lifecycle", "asan", 1500), ("c08_lifecycle", "tsan", 500), ("c08_lifecycle", "tsanat", 4000)], "chunk": 100},
+        "thorough": {"batches": [("c08_lifecycle", "plain", 80000), ("c08_moved_timeout", "plain", 500), ("c08_moved_timeout", "asan", 500), ("c08_lifecycle", "asan", 8000), ("c08_lifecycle", "tsan", 8000), ("c08_lifecycle", "tsanat", 30000)], "chunk": 200},
     },
     "C14": {
         "rule": "size limit drawn from 64 B..8 KiB, header/body time-outs from 1..10 s (all orders), 1..3 workers; per connection either a request of "
@@ -169,7 +169,7 @@ MANIFEST_TEXT = {
             "design_ref": "4.1", "note": "differential oracle against the same build (no second opinion about HTTP); the exhaustive sub-space is per generated message, the space of messages is sampled; " + SC_NOTE},
     "C04": {"level": "seeded search over message sequences x segmentations x abandon points, differential between a reused and a fresh parser / connection",
             "design_ref": "4.3", "note": "the L0 part drives the parser with the reset protocol of Handler::onInput; the reset call sites themselves are exercised by the L1 part (real endpoint) and by C15 (real client); " + SC_NOTE},
-    "C08": {"level": "seeded search over connection-event histories (26 client behaviours, 1..6 concurrent connections, several rounds) with callback-sequence, exactly-once-release, descriptor-census and peer-release oracles",
+    "C08": {"level": "seeded search over connection-event histories (27 client behaviours, 1..6 concurrent connections, several rounds) with callback-sequence, exactly-once-release, descriptor-census and peer-release oracles",
             "design_ref": "4.6", "note": "double releases are observed by the simulated kernel (close / epoll_ctl / I/O on a descriptor that is not open); " + SC_NOTE},
     "C14": {"level": "seeded search over request sizes around the drawn limit x segmentations, and over stall points x stall durations on either side of the drawn time-outs, on the simulated clock",
             "design_ref": "4.11", "note": "durations within 0.3 s below / 0.8 s above a time-out are not judged; " + SC_NOTE},
